@@ -247,7 +247,11 @@ StyledChecks(c, variants) ==
                                           [] OTHER -> SanUtf8Of(c.hist[i], c.moves[i]))>> :
      v \in {variants[i] : i \in 1..Len(variants)}}
 
+\* engine S2I: the behaviour came from the model; the harness compared the abstract state the model expects
+S2IChecks(e) == IF "s2i_match" \in DOMAIN e THEN {<<"model_behaviour_reproduced_by_code", e.s2i_match>>} ELSE {}
+
 ChainChecks(e) ==
+  S2IChecks(e) \cup
   IF e.ev = "c_new" THEN
        {<<"input_valid", IsValid(PosOfJson(e.pos))>>} \cup ObsChecks(NewChain(PosOfJson(e.pos)), e.obs)
   ELSE
